@@ -1,7 +1,6 @@
 //! Lifecycle stage explorer: C05 (completeness/assignment), C06 (publication before delivery),
 //! C07 (final table consistency + listing). Stateless exhaustive exploration of event sequences,
 //! each executed on the real `parse_lifecycles_buffered_from_stream`.
-use crate::core::dltgen::{mk_msg, CTRL_REQUEST_NV, MTIN_LOG_INFO_V};
 use crate::core::*;
 use adlt::dlt::DltMessage;
 use adlt::lifecycle::{
@@ -11,207 +10,7 @@ use serde_json::{json, Value};
 use std::cell::RefCell;
 use std::collections::BTreeMap;
 
-const S: u64 = 1_000_000;
-const BASE: u64 = 100_000 * S; // reception base (us): below u32::MAX dms so that "ts > reception" is expressible
-
-#[derive(Clone, Copy, Debug, PartialEq, Eq)]
-pub enum Mode {
-    Cont,
-    New,
-    Early3,
-    Early30,
-    Late3,
-    Overlap,
-    Suspend,
-    Ts0,
-    TsMax,
-    NoTmsp,
-    CtrlReq,
-}
-#[derive(Clone, Copy, Debug, PartialEq, Eq)]
-pub struct Sym {
-    pub ecu: u8,
-    /// reception advance in ms (may be negative)
-    pub adv_ms: i64,
-    pub mode: Mode,
-}
-impl Sym {
-    pub fn name(&self) -> String {
-        format!("{}{:+}ms:{:?}", (b'A' + self.ecu) as char, self.adv_ms, self.mode)
-    }
-    pub fn parse(s: &str) -> Option<Sym> {
-        let ecu = s.as_bytes().first()?.checked_sub(b'A')?;
-        let (adv, mode) = s[1..].split_once("ms:")?;
-        let adv_ms: i64 = adv.parse().ok()?;
-        let mode = match mode {
-            "Cont" => Mode::Cont,
-            "New" => Mode::New,
-            "Early3" => Mode::Early3,
-            "Early30" => Mode::Early30,
-            "Late3" => Mode::Late3,
-            "Overlap" => Mode::Overlap,
-            "Suspend" => Mode::Suspend,
-            "Ts0" => Mode::Ts0,
-            "TsMax" => Mode::TsMax,
-            "NoTmsp" => Mode::NoTmsp,
-            "CtrlReq" => Mode::CtrlReq,
-            _ => return None,
-        };
-        Some(Sym { ecu, adv_ms, mode })
-    }
-}
-
-/// the alphabet; index 0 is the default symbol of the deviation-bounded families.
-/// Advances approach the code's thresholds (1 s check interval, 2 s overlap window, 10 s resume gap,
-/// 30 s resume slack, 60 s max buffering delay) from both sides.
-pub fn alphabet(n: usize) -> Vec<Sym> {
-    use Mode::*;
-    let s = |ecu: u8, adv_ms: i64, mode: Mode| Sym { ecu, adv_ms, mode };
-    let mut v = vec![
-        s(0, 2000, Cont), // default
-        s(0, 0, Cont),
-        s(0, 12000, Cont),
-        s(0, 59600, Cont),
-        s(0, 65000, Cont),
-        s(0, -1000, Cont),
-        s(0, 2000, New),
-        s(0, 12000, New),
-        s(0, 65000, New),
-        s(0, 0, New),
-        s(0, 2000, Early3),
-        s(0, 2000, Early30),
-        s(0, 2000, Late3),
-        s(0, 2000, Overlap),
-        s(0, 12000, Overlap),
-        s(0, 2000, Ts0),
-        s(0, 2000, TsMax),
-        s(0, 2000, NoTmsp),
-        s(0, 2000, CtrlReq),
-        s(0, 65000, CtrlReq),
-        s(0, 12000, Suspend),
-        s(0, 65000, Suspend),
-        s(0, 59600, New),
-        s(0, 65000, Early3),
-        s(1, 2000, Cont),
-        s(1, 0, Cont),
-        s(1, 12000, Cont),
-        s(1, 59600, Cont),
-        s(1, 65000, Cont),
-        s(1, 2000, New),
-        s(1, 65000, New),
-        s(1, 2000, Early3),
-        s(1, 2000, Late3),
-        s(1, 2000, Overlap),
-        s(1, 2000, Ts0),
-        s(1, 2000, CtrlReq),
-        s(1, 2000, NoTmsp),
-        s(1, -1000, Cont),
-        s(1, 12000, New),
-        s(1, 12000, Suspend),
-        // 40 .. 47: extended
-        s(0, 12000, Late3),
-        s(0, 30500, Cont),
-        s(0, 10500, Suspend),
-        s(0, 2000, TsMax),
-        s(1, 2000, Early30),
-        s(1, 65000, Suspend),
-        s(2, 2000, Cont),
-        s(2, 65000, New),
-    ];
-    v[43] = s(0, 900, Cont);
-    v.truncate(n);
-    v
-}
-
-#[derive(Clone, Copy)]
-struct EcuGen {
-    known: bool,
-    boot: u64,
-    lc_start_est: u64,
-    max_ts: u64,
-}
-
-/// deterministic stream generator: symbols -> messages
-pub fn gen_stream(syms: &[Sym], uptime0_ms: u64) -> Vec<DltMessage> {
-    let mut now = BASE;
-    let mut ecus = [EcuGen { known: false, boot: 0, lc_start_est: 0, max_ts: 0 }; 3];
-    let mut out = Vec::with_capacity(syms.len());
-    for (i, sy) in syms.iter().enumerate() {
-        if sy.adv_ms >= 0 {
-            now += sy.adv_ms as u64 * 1000;
-        } else {
-            now -= (-sy.adv_ms) as u64 * 1000;
-        }
-        let e = &mut ecus[sy.ecu as usize];
-        if !e.known {
-            e.known = true;
-            e.boot = now - uptime0_ms * 1000;
-            e.lc_start_est = e.boot;
-            e.max_ts = 0;
-        }
-        let mut with_tmsp = true;
-        let mut ext = Some((MTIN_LOG_INFO_V, 0u8, *b"APID", *b"CTID"));
-        let mut new_lc = false;
-        let ts_us: u64 = match sy.mode {
-            Mode::Cont => now.saturating_sub(e.boot),
-            Mode::New => {
-                e.boot = now - S / 2;
-                new_lc = true;
-                S / 2
-            }
-            Mode::Early3 => now.saturating_sub(e.boot) + 3 * S,
-            Mode::Early30 => now.saturating_sub(e.boot) + 30 * S,
-            Mode::Late3 => now.saturating_sub(e.boot).saturating_sub(3 * S),
-            Mode::Overlap => {
-                let end = e.lc_start_est + e.max_ts;
-                let nb = end.saturating_sub(S / 2);
-                if nb <= now {
-                    e.boot = nb;
-                    new_lc = true;
-                }
-                now.saturating_sub(e.boot)
-            }
-            Mode::Suspend => {
-                // the ECU clock stood still during (almost) the whole reception gap
-                let gap = if sy.adv_ms > 100 { sy.adv_ms as u64 * 1000 - 100_000 } else { 0 };
-                e.boot += gap;
-                now.saturating_sub(e.boot)
-            }
-            Mode::Ts0 => 0,
-            Mode::TsMax => u32::MAX as u64 * 100,
-            Mode::NoTmsp => {
-                with_tmsp = false;
-                0
-            }
-            Mode::CtrlReq => {
-                ext = Some((CTRL_REQUEST_NV, 0u8, *b"APID", *b"CTID"));
-                now.saturating_sub(e.boot)
-            }
-        };
-        let ts_dms = (ts_us / 100).min(u32::MAX as u64) as u32;
-        if with_tmsp && sy.mode != Mode::CtrlReq && sy.mode != Mode::TsMax {
-            let calc = now.saturating_sub(ts_dms as u64 * 100);
-            if new_lc {
-                e.lc_start_est = calc;
-                e.max_ts = ts_dms as u64 * 100;
-            } else {
-                e.lc_start_est = e.lc_start_est.min(calc);
-                e.max_ts = e.max_ts.max(ts_dms as u64 * 100);
-            }
-        }
-        let ecu_name = [b'E', b'C', b'U', b'A' + sy.ecu];
-        out.push(mk_msg(
-            i as u32,
-            &ecu_name,
-            now,
-            ts_dms,
-            with_tmsp,
-            ext,
-            vec![i as u8, (i >> 8) as u8],
-        ));
-    }
-    out
-}
+pub use crate::lcgen::*;
 
 #[derive(Clone, Debug)]
 pub struct LcSnap {
